@@ -266,7 +266,17 @@ func (ex *Exec) runVC() {
 					cs = append(cs, c)
 				}
 				sort.Strings(cs)
+				// alloc first: the typing axioms of the other havocked components refer to the loop-head alloc set
+				if comps["alloc"] {
+					g.allocComp()
+					before := g.get(st, "alloc")
+					g.havocComp(st, "alloc")
+					g.addFact(fmt.Sprintf("(forall ((r Int)) (! (=> (select %s r) (select %s r)) :pattern ((select %s r))))", before, g.get(st, "alloc"), before))
+				}
 				for _, c := range cs {
+					if c == "alloc" {
+						continue
+					}
 					g.havocComp(st, c)
 				}
 			}
@@ -342,6 +352,19 @@ func (ex *Exec) runVC() {
 		}
 	}
 	ex.postconditions()
+}
+
+// allocBefore: the alloc set at loop entry (remembered so that the loop-head alloc set is known to include it)
+func allocBefore(ex *Exec, hdr *ssa.BasicBlock, st *State) string {
+	if ex.allocAtEntry == nil {
+		ex.allocAtEntry = map[*ssa.BasicBlock]string{}
+	}
+	if v, ok := ex.allocAtEntry[hdr]; ok {
+		return v
+	}
+	v := ex.g.get(st, "alloc")
+	ex.allocAtEntry[hdr] = v
+	return v
 }
 
 func (ex *Exec) localSort(id string, cur string) string {
